@@ -565,7 +565,16 @@ func (cc c27Cols) replayable(t string) bool {
 	return !inB || len(a) == len(b)
 }
 
-func c27Replay(before, after c27State, groups []*command.CDCIndexedEventGroup, filter *regexp.Regexp, idsOnly bool, cc c27Cols) string {
+// c27Replay checks the groups of one request in one of two passes:
+//
+//	"structure": error field, table filter, column names, presence/length of
+//	             images (nothing about row contents)
+//	"rows":      the replay of row ids and images on the before-state
+//
+// The passes are independent so that two different problems in one request
+// (e.g. surplus events and stale column names) are each attributed correctly.
+func c27Replay(pass string, before, after c27State, groups []*command.CDCIndexedEventGroup, filter *regexp.Regexp, idsOnly bool, cc c27Cols) string {
+	structure := pass == "structure"
 	shadow := before.clone()
 	for _, t := range c27Tables {
 		if shadow[t] == nil {
@@ -575,38 +584,43 @@ func c27Replay(before, after c27State, groups []*command.CDCIndexedEventGroup, f
 	for gi, g := range groups {
 		for ei, ev := range g.Events {
 			where := fmt.Sprintf("group %d event %d (%s)", gi, ei, c27EvString(ev))
-			if ev.Error != "" {
-				return where + ": event carries error " + ev.Error
-			}
 			tbl, ok := shadow[ev.Table]
-			if !ok {
-				return where + ": unknown table"
-			}
-			if filter != nil && !filter.MatchString(ev.Table) {
-				return where + ": table does not match the filter"
-			}
-			okNames := false
-			var ncols int
-			for _, cand := range cc.names(ev.Table) {
-				if strings.Join(ev.ColumnNames, ",") == strings.Join(cand, ",") {
-					okNames = true
-					ncols = len(cand)
+			if structure {
+				if ev.Error != "" {
+					return where + ": event carries error " + ev.Error
 				}
-			}
-			if !okNames {
-				return where + fmt.Sprintf(": column names %v, table has %v", ev.ColumnNames, cc.names(ev.Table))
-			}
-			if idsOnly {
-				if ev.OldRow != nil || ev.NewRow != nil {
-					return where + ": row images present in row-ids-only mode"
+				if !ok {
+					return where + ": unknown table"
 				}
-			} else {
-				for _, img := range []*command.CDCRow{ev.OldRow, ev.NewRow} {
-					if img != nil && len(img.Values) != len(ev.ColumnNames) {
-						return where + fmt.Sprintf(": image has %d values for column names %v", len(img.Values), ev.ColumnNames)
+				if filter != nil && !filter.MatchString(ev.Table) {
+					return where + ": table does not match the filter"
+				}
+				okNames := false
+				for _, cand := range cc.names(ev.Table) {
+					if strings.Join(ev.ColumnNames, ",") == strings.Join(cand, ",") {
+						okNames = true
 					}
 				}
+				if !okNames {
+					return where + fmt.Sprintf(": column names %v, table has %v", ev.ColumnNames, cc.names(ev.Table))
+				}
+				if idsOnly {
+					if ev.OldRow != nil || ev.NewRow != nil {
+						return where + ": row images present in row-ids-only mode"
+					}
+				} else {
+					for _, img := range []*command.CDCRow{ev.OldRow, ev.NewRow} {
+						if img != nil && len(img.Values) != len(ev.ColumnNames) {
+							return where + fmt.Sprintf(": image has %d values for column names %v", len(img.Values), ev.ColumnNames)
+						}
+					}
+				}
+				continue
 			}
+			if !ok || (filter != nil && !filter.MatchString(ev.Table)) {
+				continue // reported by the structure pass
+			}
+			ncols := len(cc.after[ev.Table])
 			if !cc.replayable(ev.Table) {
 				continue // the schema change itself rewrote or removed rows; structural checks only
 			}
@@ -667,6 +681,9 @@ func c27Replay(before, after c27State, groups []*command.CDCIndexedEventGroup, f
 			}
 		}
 	}
+	if structure {
+		return ""
+	}
 	for _, t := range c27Tables {
 		if filter != nil && !filter.MatchString(t) {
 			continue
@@ -722,7 +739,7 @@ func c27ExplainedBySurplus(before, after c27State, groups []*command.CDCIndexedE
 				g.Events = append(g.Events, ev)
 			}
 		}
-		return c27Replay(before, after, []*command.CDCIndexedEventGroup{g}, filter, idsOnly, cols) == ""
+		return c27Replay("rows", before, after, []*command.CDCIndexedEventGroup{g}, filter, idsOnly, cols) == ""
 	}
 	for i := 0; i < n; i++ {
 		for j := i + 1; j <= n; j++ {
@@ -1047,7 +1064,7 @@ func (e *c27Env) warm() {
 
 func c27Run(rt *rapid.T, rec *vstat.Rec, env *c27Env, c c27Case) {
 	if err := env.reset(c); err != nil {
-		rt.Skipf("infrastructure: %v", err)
+		c27Bail("infrastructure: %v", err)
 	}
 	ch := make(chan *command.CDCIndexedEventGroup, 1024)
 	var filter *regexp.Regexp
@@ -1055,18 +1072,18 @@ func c27Run(rt *rapid.T, rec *vstat.Rec, env *c27Env, c c27Case) {
 		filter = regexp.MustCompile(c.Filter)
 	}
 	if err := env.s.EnableCDC(ch, filter, c.IDsOnly); err != nil {
-		rt.Skipf("infrastructure: EnableCDC: %v", err)
+		c27Bail("infrastructure: EnableCDC: %v", err)
 	}
 	env.cdc = true
 	v, err := vsql.Open(filepath.Join(env.dir, "db.sqlite"))
 	if err != nil {
-		rt.Skipf("infrastructure: %v", err)
+		c27Bail("infrastructure: %v", err)
 	}
 	defer v.Close()
 	// the starting state must be what the case says (shared store)
 	start, _, err := c27Snapshot(v)
 	if err != nil {
-		rt.Skipf("infrastructure: snapshot: %v", err)
+		c27Bail("infrastructure: snapshot: %v", err)
 	}
 	nInitA := 0
 	for _, s := range c.Init {
@@ -1075,18 +1092,18 @@ func c27Run(rt *rapid.T, rec *vstat.Rec, env *c27Env, c c27Case) {
 		}
 	}
 	if len(start["a"]) != nInitA || len(start["log"]) != len(start["b"]) || start["d"] != nil {
-		rt.Skipf("infrastructure: shared store not in the initial state")
+		c27Bail("infrastructure: shared store not in the initial state")
 	}
 
 	totalEvents, anyFailedStmt, multi, anyDDL, lastDDL := 0, false, false, false, ""
 	type pending struct {
 		sig, msg string
 	}
-	var firstFail *pending
+	var fails []pending // discrepancies of the first request that has any
 	for ri, req := range c.Reqs {
 		before, colsB, err := c27Snapshot(v)
 		if err != nil {
-			rt.Skipf("infrastructure: snapshot: %v", err)
+			c27Bail("infrastructure: snapshot: %v", err)
 		}
 		preq := &command.Request{Transaction: req.Tx}
 		for _, s := range req.Stmts {
@@ -1100,7 +1117,7 @@ func c27Run(rt *rapid.T, rec *vstat.Rec, env *c27Env, c c27Case) {
 			rs, _, _, rerr = env.s.Request(context.Background(), &command.ExecuteQueryRequest{Request: preq})
 		}
 		if rerr == store.ErrNotLeader || rerr == store.ErrNotReady || rerr == store.ErrNotOpen {
-			rt.Skipf("infrastructure: %v", rerr)
+			c27Bail("infrastructure: %v", rerr)
 		}
 		var groups []*command.CDCIndexedEventGroup
 	drain:
@@ -1114,7 +1131,7 @@ func c27Run(rt *rapid.T, rec *vstat.Rec, env *c27Env, c c27Case) {
 		}
 		after, colsA, err := c27Snapshot(v)
 		if err != nil {
-			rt.Skipf("infrastructure: snapshot: %v", err)
+			c27Bail("infrastructure: snapshot: %v", err)
 		}
 		failed := make([]bool, len(rs))
 		for i, r := range rs {
@@ -1129,7 +1146,7 @@ func c27Run(rt *rapid.T, rec *vstat.Rec, env *c27Env, c c27Case) {
 				multi = true
 			}
 		}
-		if firstFail != nil {
+		if len(fails) > 0 {
 			continue
 		}
 		// schema around this request: events committed after the (single)
@@ -1156,33 +1173,32 @@ func c27Run(rt *rapid.T, rec *vstat.Rec, env *c27Env, c c27Case) {
 			anyDDL = true
 			lastDDL = ddlClass
 		}
-		msg := c27Replay(before, after, groups, filter, c.IDsOnly, cols)
-		sig := ""
 		// the envelope must describe the groups it is given, whatever they are
 		if m := c27CheckJSON(groups, c.IDsOnly); m != "" {
-			firstFail = &pending{"C27/json-envelope-mismatch", fmt.Sprintf("request %d: %s", ri, m)}
+			fails = append(fails, pending{"C27/json-envelope-mismatch", fmt.Sprintf("request %d: %s", ri, m)})
 			continue
 		}
-		if msg != "" && !ddlSeen && lastDDL != "" && (strings.Contains(msg, "column names") || strings.Contains(msg, "carries error") || strings.Contains(msg, "values for column names")) {
-			// the schema changed in an earlier request of this program
-			sig = fmt.Sprintf("C27/wrong-column-names-after-schema-change{ddl=%s,same-tx=false}", strings.TrimPrefix(lastDDL, "ddl-"))
-		} else if msg != "" && ddlSeen && (strings.Contains(msg, "column names") || strings.Contains(msg, "carries error") || strings.Contains(msg, "values for column names")) {
-			sig = fmt.Sprintf("C27/wrong-column-names-after-schema-change{ddl=%s,same-tx=%v}", strings.TrimPrefix(ddlClass, "ddl-"), ddlSameTx)
-		} else if msg != "" {
-			sig = "C27/replay-mismatch"
+		if msg := c27Replay("structure", before, after, groups, filter, c.IDsOnly, cols); msg != "" {
+			sig := "C27/replay-mismatch"
+			namesKind := strings.Contains(msg, "column names") || strings.Contains(msg, "carries error")
+			switch {
+			case namesKind && ddlSeen:
+				sig = fmt.Sprintf("C27/wrong-column-names-after-schema-change{ddl=%s,same-tx=%v}", strings.TrimPrefix(ddlClass, "ddl-"), ddlSameTx)
+			case namesKind && lastDDL != "":
+				// the schema changed in an earlier request of this program
+				sig = fmt.Sprintf("C27/wrong-column-names-after-schema-change{ddl=%s,same-tx=false}", strings.TrimPrefix(lastDDL, "ddl-"))
+			}
+			fails = append(fails, pending{sig, fmt.Sprintf("request %d: %s", ri, msg)})
+		}
+		if msg := c27Replay("rows", before, after, groups, filter, c.IDsOnly, cols); msg != "" {
+			sig := "C27/replay-mismatch"
 			// phantom signatures are reserved for discrepancies that are
 			// explained by surplus events: leaving out one (or two) contiguous
-			// runs of events makes the replay exact
-			structural := false
-			for _, k := range []string{"does not match the filter", "row images present", "column names", "carries error", "without a complete", "with a before-image", "with an after-image", "unknown"} {
-				structural = structural || strings.Contains(msg, k)
-			}
-			if !structural && c27ExplainedBySurplus(before, after, groups, filter, c.IDsOnly, cols) {
+			// runs of events makes the row replay exact
+			if c27ExplainedBySurplus(before, after, groups, filter, c.IDsOnly, cols) {
 				sig = c27Classify(req, failed)
 			}
-		}
-		if msg != "" {
-			firstFail = &pending{sig, fmt.Sprintf("request %d: %s", ri, msg)}
+			fails = append(fails, pending{sig, fmt.Sprintf("request %d: %s", ri, msg)})
 		}
 	}
 
@@ -1219,27 +1235,59 @@ func c27Run(rt *rapid.T, rec *vstat.Rec, env *c27Env, c c27Case) {
 	for l := range seen {
 		rec.Label(l)
 	}
-	if firstFail != nil {
-		what := c27KnownWhat[firstFail.sig]
-		if strings.HasPrefix(firstFail.sig, "C27/wrong-column-names-after-schema-change{") {
+	for _, f := range fails {
+		what := c27KnownWhat[f.sig]
+		if strings.HasPrefix(f.sig, "C27/wrong-column-names-after-schema-change{") {
 			what = "after a schema change the column names attached to CDC events are looked up on a read-only connection that does not see the change (old names, or an error instead of values)"
 		}
-		if rec.KnownHit(firstFail.sig, what) {
-			return
+		if rec.KnownHit(f.sig, what) {
+			continue
 		}
-		rt.Fatalf("%s", rec.Violation(firstFail.sig, "%s ;; case: %s", firstFail.msg, c.render()))
+		c27Fatal(rt, rec.Violation(f.sig, "%s ;; case: %s", f.msg, c.render()))
 	}
 }
+
+func c27Fatal(rt *rapid.T, msg string) { rt.Fatalf("%s", msg) }
 
 func TestVerif_C27_Store(t *testing.T) {
 	rec := vstat.New(t, "C27", "store",
 		"rapid: 1-3 write requests of 1-5 statements (single/multi-row INSERT, OR REPLACE/IGNORE/FAIL, UPSERT, UPDATE incl. rowid-changing, UNIQUE-violating, OR REPLACE and no-op, DELETE incl. whole table and FK cascade, trigger-driven writes, FK/UNIQUE/PK failures after earlier rows of the statement fired, syntax errors, explicit BEGIN..COMMIT/ROLLBACK, SAVEPOINT..ROLLBACK TO..RELEASE blocks, at most one schema change per request (ALTER TABLE RENAME/ADD/DROP COLUMN, CREATE/DROP TABLE d with different column lists) with writes before and after it, read-only pool connections warmed before each case, transaction flag on/off, Store.Execute and Store.Request) over four tables with INTEGER/REAL/TEXT/BLOB/NUMERIC/untyped columns, rowid alias and plain rowid, values of every storage class; Store.EnableCDC with table filter none/5 regexes, row-ids-only on/off; one real single-node store per process, schema recreated (CDC off) per case; non-trivial = events were emitted and the program has a failing statement or a multi-event group; distinct by full program text")
-	env, err := c27NewEnv()
+	var env *c27Env
+	var err error
+	for try := 0; try < 3; try++ { // store start-up can fail on a very busy machine
+		if env, err = c27NewEnv(); err == nil {
+			break
+		}
+		time.Sleep(2 * time.Second)
+	}
 	if err != nil {
-		t.Skipf("infrastructure: %v", err)
+		rec.Label("inconclusive:infrastructure")
+		t.Logf("infrastructure: %v", err)
+		return
 	}
 	defer env.close()
 	rapid.Check(t, func(rt *rapid.T) {
+		defer c27Guard(rec)
 		c27Run(rt, rec, env, c27GenCase(rt))
 	})
+}
+
+// c27Inconclusive is raised for infrastructure trouble inside a case; the
+// case is then counted under the label "inconclusive:infrastructure" instead
+// of being skipped (rapid gives up when most cases are skipped).
+type c27Inconclusive struct{ msg string }
+
+func c27Bail(format string, args ...any) {
+	panic(c27Inconclusive{fmt.Sprintf(format, args...)})
+}
+
+// c27Guard is deferred at the top of a case.
+func c27Guard(rec *vstat.Rec) {
+	if r := recover(); r != nil {
+		if _, ok := r.(c27Inconclusive); ok {
+			rec.Label("inconclusive:infrastructure")
+			return
+		}
+		panic(r)
+	}
 }
